@@ -215,6 +215,17 @@ func dense(r *runner) {
 	for i, d := range defs {
 		denseEnum(r, "accum-"+strconv.Itoa(i), asyms, c.N(4, 6), Case{Agg: "accum", Full: true, Acc: d}, nil)
 	}
+	// ragged elements: fewer fields than the expressions reference (a field that is not there reads as empty,
+	// never as a neighbouring field). Only string-valued columns, so that no helper's error marker is involved.
+	ragged := []string{"a", "b", "a" + nul + "1", "b" + nul + "x" + nul + "z", "a" + nul + nul + "q", ""}
+	rdefs := []*AccDef{
+		{Groups: []int{1}, Cols: []ColDef{{Name: "l2", Init: "none", Kind: "last", F: 2}, {Name: "l3", Init: "", Kind: "last", F: 3}, {Name: "c2", Init: ">", Kind: "cat", F: 2}, {Name: "n", Init: "0", Kind: "count"}}},
+		{Groups: []int{2}, Cols: []ColDef{{Name: "l1", Init: "", Kind: "last", F: 1}, {Name: "c3", Init: "", Kind: "cat", F: 3}}},
+		{Groups: []int{3, 1}, Cols: []ColDef{{Name: "w", Init: "", Kind: "last", F: 0}, {Name: "l4", Init: "i", Kind: "last", F: 4}}},
+	}
+	for i, d := range rdefs {
+		denseEnum(r, "accum-ragged-"+strconv.Itoa(i), ragged, c.N(4, 5), Case{Agg: "accum", Full: true, Acc: d}, nil)
+	}
 }
 
 // ---------------------------------------------------------------- random histories
@@ -606,14 +617,22 @@ func genAccum(rr *run.Rand, c *run.Ctx) (*Case, []string) {
 		d.Groups = []int{1}
 	}
 	ncol := rr.Range(1, 5)
+	// ragged: elements with 1..5 fields; only string-valued columns (no helper error markers to model)
+	isRagged := rr.Intn(4) == 0
+	if isRagged && rr.Bool() {
+		d.Groups = []int{rr.Range(1, 5)}
+	}
 	var numeric []string
 	for i := 0; i < ncol; i++ {
 		cd := ColDef{Name: string(rune('a'+i)) + "c"}
 		kinds := []string{"sum", "count", "max", "min", "last", "keep", "sum", "count"}
+		if isRagged {
+			kinds = []string{"last", "last", "keep", "count"}
+		}
 		if n <= 300 {
 			kinds = append(kinds, "cat")
 		}
-		if len(numeric) >= 2 {
+		if len(numeric) >= 2 && !isRagged {
 			kinds = append(kinds, "diff", "diff")
 		}
 		if i > 0 {
@@ -651,7 +670,13 @@ func genAccum(rr *run.Rand, c *run.Ctx) (*Case, []string) {
 	samples := make([]string, n)
 	for i := range samples {
 		f := []string{g1[zipf(rr, len(g1))], g2[rr.Intn(len(g2))], strconv.Itoa(rr.Range(-1000, 1000)), strconv.Itoa(rr.Range(-3, 3)), payloads[rr.Intn(len(payloads))]}
+		if isRagged {
+			f = f[:rr.Range(1, 5)]
+		}
 		samples[i] = strings.Join(f, nul)
+	}
+	if isRagged {
+		c.Count("accum_ragged_cases", 1)
 	}
 	return cs, samples
 }
